@@ -9,6 +9,62 @@ ALL = [f"C{i:02d}" for i in range(1, 21)]
 
 # id -> (level category, technique, level text, level note, design section)
 CHECKS = {
+    "C10": (
+        "exploration",
+        "history + executable sequential model: every batch result compared bit for bit with one-at-a-time evaluation under real dask schedulers, an adversarial executor (seeded and enumerated start/release orders), forced partition sizes, sys.monitoring yield injection with the shared kernel object frozen, and per-position failpoints",
+        "Observed schedules: synchronous, threads 1/2/8/16, processes 2[/4]; partition sizes {1,2,3,7,100,n,n+1}; 60..300 adversarial schedules incl. all P! start orders for P=4[,5]; 12..240 yield-injected 4-thread runs (tens of thousands of forced thread switches at hundreds of source lines); a failing event at every position of 25 and at 5 positions of 250 under each scheduler. The quantifier is over all schedules: a finite set is explored.",
+        "Trusted: dask's scheduler hooks (pool=, num_workers), CPython's sys.monitoring. TSan/helgrind are noise on CPython and are not used; Python-level races are attacked by forced GIL hand-offs and a frozen shared object.",
+        "5 (C10)",
+    ),
+    "C11": (
+        "exploration",
+        "metamorphic monitors (permutation, split, repeat incl. reused buffer objects, single-event rows) and input-digest monitors on 17 real stage entry points, bit for bit, with explicit random numbers or a constant RNG stub",
+        "Observed executions over batch sizes {1,2,17,8191,8192,8193,20000} (kernel stages {1,2,17,101[,250]}), every split point for n<=17, seeded permutations through the same buffer objects refilled in place and through fresh arrays, 2..5 repeats on one object; ~4e6 event evaluations per quick run.",
+        "Trusted: numpy's elementwise loops being position-independent on this machine (observed). Empty halves are not demanded. Stages without explicit random numbers are driven with a constant RNG stub (no draw order assumed).",
+        "5 (C11)",
+    ),
+    "C13": (
+        "exploration",
+        "reference-model monitor with independent astrometry (ICRS/GCRS->ITRS directions dotted with the geodetic normal, topocentric Sun/Moon, phase angle from vectors, coarse GMST formula) and guard bands; explicit ray-sphere triangle; per-instant and monotonicity monitors on the dark-sky cut; channel application through the real mcintegral",
+        "Observed executions over 96..480 seeded target configurations (sources on the sphere incl. poles, dates 2020-2026, T 10 s..30 d, N 1..2000 incl. 49 and 103, detector incl. poles and the date line, cut thresholds default / always / never / exactly 0 / random): every instant judged outside the guard bands; numbers judged are in the evidence.",
+        "Trusted: astropy's transformations, ephemerides and IERS tables. Guard bands 1e-3 deg (source), 0.01 deg (Sun, Moon), 1e-6 deg (phase): instants inside are not judged.",
+        "5 (C13)",
+    ),
+    "C14": (
+        "exploration",
+        "monitored full runs of the real compute(): byte comparison of whole tables (frozen simTime) across schedulers and channel switches, structural monitor re-evaluating cross-stage relations on the stored columns, zero-survivor runs",
+        "12 (quick) / 36 (thorough) configurations of the mode x spectrum x cloud x altitude cross product x 2..3 seeds, each run under synchronous, threads-8 with partition size 10, processes-2 or an adversarial executor, repeated, radio-off and optical-off; plus 4 zero-survivor cases x 3 channel variants.",
+        "Trusted: dask, astropy tables. The source-built stepping function is used in every process (spawned workers re-import the harness main module).",
+        "5 (C14)",
+    ),
+    "C15": (
+        "exploration",
+        "field-by-field round-trip monitor over the pydantic model tree, independent unit route (Quantity(value, unit_object).to(canonical)), validation monitors for bands and months, CLI driven through click's CliRunner",
+        "500..12000 seeded configurations (all spectrum/cloud variants, 21 hostile strings, floats over 17 decades incl. -0.0, denormals, max double, +-inf cloud altitude), 15 unit-bearing fields x spellings x values x {string, Quantity}, incompatible units, bare numbers, 14 band specifications x 3 routes, 132 month spellings, 13 CLI invocations.",
+        "Trusted: tomllib/tomli_w, astropy.units. Optional sub-models set to None are not generated. Angle magnitudes kept where the degree value neither overflows nor is denormal.",
+        "5 (C15)",
+    ),
+    "C16": (
+        "exploration",
+        "round-trip monitor on real Table.write/read of results tables (synthetic on results_table.init and from real runs), header completeness incl. values, reconstruction compared on the fields config_from_fits is observed to fill; mechanism-keyed classifier for the open header-float finding",
+        "120..2000 synthetic tables (all stored dtypes incl. Time and 2-D fields; one third with 17-digit floats, two thirds with short-text floats that must be exact; reused configuration objects) plus 4..24 tables from real runs; every column, header value, configuration entry and reconstructed field compared.",
+        "Trusted: astropy.io.fits. Float header differences are accepted only as KNOWN-FINDING fits-header:float-text-exceeds-card and only when the card-cutting rule predicts the exact read-back value (or a write failure cut inside the exponent).",
+        "5 (C16)",
+    ),
+    "C17": (
+        "fault_enumeration",
+        "offline prefix checker over recorded writes with fault injection in separate processes: every stage boundary x {raise, die-after, die-before}, every stage method raising at entry, audit-hooked write_stages=False runs",
+        "For each configuration (2 quick / 7 thorough, several file names incl. extension-less) one reference run snapshots the file at every boundary; then one process per (boundary, kind) is run and the file left on disk is compared, file against file, with the reference snapshot; compute() must raise for injected failures. Every boundary of each configuration is enumerated.",
+        "Trusted: astropy FITS I/O, os._exit for process death, sys.addaudithook. Death during a write is outside the property and is not injected.",
+        "5 (C17)",
+    ),
+    "C20": (
+        "exploration",
+        "two-run relations on the real EASRadio + calculate_snr (identically seeded), finiteness/range monitors on events from the real upstream stages with hostile decay numbers, exhaustive enumeration of all 13 695 aligned bands against an independent evaluation of the parametrisation, SNR re-derived from the formulas",
+        "5 detector altitudes (ionosphere branch at 90 km) x band/TEC variants x 300..2500 events incl. lenDec in {0, 1e-17, ...}, decays at closest approach, altDec in {0, 10, 10+ulp}; energy factors, antenna counts, permutations incl. a 20000..70001-event batch; every band enumerated.",
+        "Trusted: numpy, the shipped parameter tables. Antenna gain positive.",
+        "5 (C20)",
+    ),
     "C01": (
         "exploration",
         "runtime oracle on the real throw/mcintegral: finite-difference 4x4 Jacobian of explicit 3-D vectors (importance identity), one-hot observation of the weight mcintegral applies, scrambled-Sobol quadrature (truncated and full) against an independently integrated aperture",
